@@ -58,7 +58,7 @@ def cases(draw, tier):
     cfg = tg.Cfg(tier, max_leaves=8 if tier == "quick" else 12, roots=("struct", "struct", "struct", "array", "array", "unionref"))
     spec = draw(tg.type_specs(cfg))
     value = tg._draw_value(draw, spec, cfg)
-    return {"type": spec, "value": value, "exec": draw(st.integers(0, 2)) == 0, "offset": draw(st.sampled_from([0, 8, 24]))}
+    return {"type": spec, "value": value, "exec": draw(st.integers(0, 2)) == 0, "offset": draw(st.sampled_from([0, 8, 24])), "cpu_first": draw(st.booleans())}
 
 
 def strategy(tier):
@@ -152,6 +152,15 @@ def run_case(case):
     classes = sut(sort_classes, [node.cls])
     if is_raised(classes):
         return fail("sort_classes_raised", f"{classes}", classes.key, labels)
+    pre_ctx = pre_ks = None
+    if case.get("exec") or case.get("cpu_first"):
+        # history: the classes are first used on a CPU context (which asks them for their plain declarations and
+        # compiles their API); the GPU sources generated afterwards in the same process must be unaffected
+        labels.add("cpu_build_before_gpu_sources")
+        pre_ctx = xo.ContextCpu()
+        pre_ks = sut(cbuild.compile_api, node.cls, pre_ctx)
+        if is_raised(pre_ks):
+            return fail("api_build_failed", f"{pre_ks}", pre_ks.key, labels)
     texts = {}
     for t in TARGETS:
         r = sut(assemble, classes, t)
@@ -199,7 +208,7 @@ def run_case(case):
         return Outcome(True, labels=sorted(labels), nontrivial=nontrivial)
     # ---- (4) execution of the host-compiled GPU texts next to the CPU build
     labels.add("executed")
-    ctx = xo.ContextCpu()
+    ctx = pre_ctx
     buf = ctx.new_buffer(64)
     if case.get("offset"):
         buf.allocate(case["offset"])
@@ -209,9 +218,7 @@ def run_case(case):
     model = sut(mat.walk, obj, node)
     if is_raised(model):
         return fail("read_raised", f"{model}", model.key, labels)
-    ks = sut(cbuild.compile_api, node.cls, ctx)
-    if is_raised(ks):
-        return fail("api_build_failed", f"{ks}", ks.key, labels)
+    ks = pre_ks
     import cffi
 
     cdefs = "\n".join(c._gen_c_decl({}) for c in classes)
